@@ -637,7 +637,7 @@ func (x *Exec) applyCallee(st *State, ins ssa.Instruction, c *ssa.CallCommon, ar
 		}
 		if mayWrite {
 			for _, a := range args {
-				if a.T != nil && isSlice(a.T) && len(a.L) >= 1 && x.views[a.sliceArr().S] {
+				if a.T != nil && isSlice(a.T) && len(a.L) >= 1 && x.views[a.sliceArr().S] != nil {
 					panic(unsupported{"UNSUPPORTED a slice of an array embedded in another object is passed to a callee that may write to it (" + names[0] + ") in " + x.funcName()})
 				}
 			}
@@ -1130,7 +1130,7 @@ func (x *Exec) defineArr(st *State, hint, sort string, body func(i Term) Term) T
 
 func (x *Exec) doAppend(st *State, ins ssa.Instruction, c *ssa.CallCommon, args []Value) Value {
 	s := args[0]
-	if x.views[s.sliceArr().S] && s.sliceLen().S != s.sliceCap().S {
+	if x.views[s.sliceArr().S] != nil && s.sliceLen().S != s.sliceCap().S {
 		// appending to a full view (cap == len) reallocates; anything else could write in place
 		panic(unsupported{"UNSUPPORTED append to a partial slice of an array embedded in another object in " + x.funcName()})
 	}
@@ -1190,8 +1190,21 @@ func (x *Exec) doAppend(st *State, ins ssa.Instruction, c *ssa.CallCommon, args 
 
 func (x *Exec) doCopy(st *State, ins ssa.Instruction, c *ssa.CallCommon, args []Value) Value {
 	dst, src := args[0], args[1]
-	if isSlice(dst.T) && x.views[dst.sliceArr().S] {
-		panic(unsupported{"UNSUPPORTED copy into a slice of an array embedded in another object in " + x.funcName()})
+	if isSlice(dst.T) && x.views[dst.sliceArr().S] != nil {
+		// copy into a slice of an array that lives inside another object: copy into the view, then write the
+		// view's contents back to the field it was taken from
+		origin := x.views[dst.sliceArr().S]
+		view := dst.sliceArr().S
+		delete(x.views, view)
+		res := x.doCopy(st, ins, c, args)
+		x.views[view] = origin
+		at := origin.Sub.Underlying().(*types.Array)
+		var leaves []Term
+		for _, lf := range flatten(at.Elem()) {
+			leaves = append(leaves, mkSelect(x.heapCurE(st, "M", at.Elem(), lf), dst.sliceArr()))
+		}
+		x.store(st, origin, Value{T: origin.Sub, L: leaves})
+		return res
 	}
 	sl := dst.T.Underlying().(*types.Slice)
 	rt := resultType(c)
